@@ -8,6 +8,7 @@ import (
 	"math"
 	"reflect"
 	"strconv"
+	"strings"
 
 	"github.com/smarthome-go/homescript/v3/homescript/analyzer/ast"
 	herrors "github.com/smarthome-go/homescript/v3/homescript/errors"
@@ -49,8 +50,8 @@ func MarshalValue(self Value, isInner bool) (out interface{}, skipNull bool) {
 				return nil, false
 			}
 			marshaled, skipNull := MarshalValue(*value, true)
-			// skip builtin functions
-			if marshaled != nil && !skipNull {
+			// skip builtin functions (but keep `null` and `none`)
+			if !skipNull {
 				output[key] = marshaled
 			}
 		}
@@ -62,8 +63,8 @@ func MarshalValue(self Value, isInner bool) (out interface{}, skipNull bool) {
 				return nil, false
 			}
 			marshaled, skipNull := MarshalValue(*value, true)
-			// skip builtin functions
-			if marshaled != nil && !skipNull {
+			// skip builtin functions (but keep `null` and `none`)
+			if !skipNull {
 				output[key] = marshaled
 			}
 		}
@@ -73,8 +74,8 @@ func MarshalValue(self Value, isInner bool) (out interface{}, skipNull bool) {
 		for _, value := range *self.Values {
 			marshaled, skipNull := MarshalValue(*value, true)
 
-			// skip builtin functions
-			if marshaled != nil && !skipNull {
+			// skip builtin functions (but keep `null` and `none`)
+			if !skipNull {
 				output = append(output, marshaled)
 			}
 		}
@@ -162,6 +163,19 @@ func UnmarshalValue(span herrors.Span, self interface{}) (*Value, *VmInterrupt) 
 	switch self := self.(type) {
 	case string:
 		return NewValueString(self), nil
+	case json.Number:
+		// The literal decides: a number written with a fraction or an exponent is a float (`2.0` must not
+		// come back as the integer 2), everything else an integer.
+		if !strings.ContainsAny(self.String(), ".eE") {
+			if intValue, err := self.Int64(); err == nil {
+				return NewValueInt(intValue), nil
+			}
+		}
+		floatValue, err := self.Float64()
+		if err != nil {
+			return nil, NewVMFatalException(fmt.Sprintf("Cannot parse JSON number `%s`: %s", self.String(), err.Error()), Vm_JsonErrorKind, span)
+		}
+		return NewValueFloat(floatValue), nil
 	case float64:
 		if float64(int64(self)) == self {
 			return NewValueInt(int64(self)), nil
